@@ -681,6 +681,167 @@ fn predict_lru(
     (r.into_iter().map(|x| x.0).collect(), decision)
 }
 
+/// What one maintenance pass of the concurrent cache must leave behind, computed from the
+/// snapshot taken before it (map, access-order queue, both op queues) and the popularity
+/// estimates read after it (the sketch only changes while the read log is applied, which
+/// comes first). Caches without expiry and without an invalidate_all watermark only; one
+/// round (queues shorter than a flush batch). Boring on purpose: lists and maps.
+/// Returns (access-order queue as (key, info), resident keys, entry_count, weighted_size,
+/// whether an admission contest took place).
+fn predict_pass(cfg: &Cfg, pre: &Snapshot, est: &[u8]) -> (Vec<(u64, usize)>, Vec<u64>, u64, u64, bool) {
+    #[derive(Clone, Copy)]
+    struct Info {
+        admitted: bool,
+        accounted: u32,
+        weight: u32,
+    }
+    // map: key -> (entry address, info address)
+    let mut map: BTreeMap<u64, (usize, usize)> = pre.entries.iter().map(|e| (e.key, (e.entry_addr, e.info_addr))).collect();
+    let mut infos: BTreeMap<usize, Info> = BTreeMap::new();
+    let mut note = |e: &EntrySnap, infos: &mut BTreeMap<usize, Info>| {
+        infos.entry(e.info_addr).or_insert(Info { admitted: e.admitted, accounted: e.accounted, weight: e.weight });
+    };
+    for e in &pre.entries {
+        note(e, &mut infos);
+    }
+    for o in pre.read_ops.iter().chain(pre.write_ops.iter()) {
+        match o {
+            OpSnap::Hit { entry, .. } | OpSnap::Upsert { entry, .. } | OpSnap::Remove { entry } => note(entry, &mut infos),
+            OpSnap::Miss { .. } => {}
+        }
+    }
+    let mut q: Vec<(u64, usize)> = pre.probation.nodes.iter().map(|n| (n.key, n.info_addr)).collect();
+    let (mut ec, mut ws) = (pre.entry_count, pre.weighted_size);
+    let cap = cfg.cap;
+    let mut contest = false;
+    let to_back = |q: &mut Vec<(u64, usize)>, info: usize| {
+        if let Some(p) = q.iter().position(|n| n.1 == info) {
+            let n = q.remove(p);
+            q.push(n);
+        }
+    };
+    // 1. the read log: a hit refreshes the recency of an admitted entry
+    for o in &pre.read_ops {
+        if let OpSnap::Hit { entry, .. } = o {
+            if infos[&entry.info_addr].admitted {
+                to_back(&mut q, entry.info_addr);
+            }
+        }
+    }
+    // 2. the write log, oldest first
+    for o in &pre.write_ops {
+        match o {
+            OpSnap::Upsert { entry, new_weight, .. } => {
+                let key = entry.key;
+                let ia = entry.info_addr;
+                let inf = infos[&ia];
+                if inf.admitted {
+                    ws = ws.saturating_sub(inf.accounted as u64).saturating_add(inf.weight as u64);
+                    infos.get_mut(&ia).unwrap().accounted = inf.weight;
+                    to_back(&mut q, ia);
+                    continue;
+                }
+                // a stale op: the map holds another value entry for the key by now
+                if map.get(&key).map(|m| m.0) != Some(entry.entry_addr) {
+                    continue;
+                }
+                let nw = *new_weight;
+                let admit = |q: &mut Vec<(u64, usize)>, infos: &mut BTreeMap<usize, Info>, ec: &mut u64, ws: &mut u64| {
+                    *ec += 1;
+                    *ws = ws.saturating_add(nw as u64);
+                    let i = infos.get_mut(&ia).unwrap();
+                    i.admitted = true;
+                    i.accounted = nw;
+                    q.push((key, ia));
+                };
+                if cap.map(|c| ws + nw as u64 <= c).unwrap_or(true) {
+                    admit(&mut q, &mut infos, &mut ec, &mut ws);
+                    continue;
+                }
+                if nw as u64 > cap.unwrap() {
+                    map.remove(&key);
+                    continue;
+                }
+                contest = true;
+                let cfreq = est[key as usize] as u32;
+                let (mut vw, mut vfreq) = (0u64, 0u32);
+                let mut victims: Vec<(u64, usize)> = Vec::new();
+                let mut skipped: Vec<(u64, usize)> = Vec::new();
+                let mut retries = 0;
+                let mut i = 0;
+                while vw < nw as u64 {
+                    if cfreq < vfreq {
+                        break;
+                    }
+                    if i >= q.len() {
+                        break;
+                    }
+                    let node = q[i];
+                    i += 1;
+                    if map.get(&node.0).map(|m| m.1) == Some(node.1) {
+                        vw += infos[&node.1].weight as u64;
+                        vfreq += est[node.0 as usize] as u32;
+                        victims.push(node);
+                        retries = 0;
+                    } else {
+                        skipped.push(node);
+                        retries += 1;
+                        if retries > 5 {
+                            break;
+                        }
+                    }
+                }
+                if vw >= nw as u64 && cfreq > vfreq {
+                    for vnode in victims {
+                        map.remove(&vnode.0);
+                        let inf = infos.get_mut(&vnode.1).unwrap();
+                        if inf.admitted {
+                            inf.admitted = false;
+                            ec = ec.saturating_sub(1);
+                            ws = ws.saturating_sub(inf.accounted as u64);
+                            inf.accounted = 0;
+                            q.retain(|n| n.1 != vnode.1);
+                        }
+                    }
+                    admit(&mut q, &mut infos, &mut ec, &mut ws);
+                } else {
+                    map.remove(&key);
+                }
+                for n in skipped {
+                    to_back(&mut q, n.1);
+                }
+            }
+            OpSnap::Remove { entry } => {
+                let inf = infos.get_mut(&entry.info_addr).unwrap();
+                if inf.admitted {
+                    inf.admitted = false;
+                    ec = ec.saturating_sub(1);
+                    ws = ws.saturating_sub(inf.accounted as u64);
+                    inf.accounted = 0;
+                    q.retain(|n| n.1 != entry.info_addr);
+                }
+            }
+            _ => {}
+        }
+    }
+    // 3. whatever is above the capacity now leaves from the least recently used end
+    if let Some(c) = cap {
+        let excess = ws.saturating_sub(c);
+        let mut evicted = 0u64;
+        while evicted < excess && !q.is_empty() {
+            let node = q.remove(0);
+            map.remove(&node.0);
+            let inf = infos.get_mut(&node.1).unwrap();
+            inf.admitted = false;
+            ec = ec.saturating_sub(1);
+            ws = ws.saturating_sub(inf.accounted as u64);
+            evicted += inf.accounted as u64;
+            inf.accounted = 0;
+        }
+    }
+    (q, map.keys().cloned().collect(), ec, ws, contest)
+}
+
 /// Executes `op` on the real cache and evaluates every oracle.
 pub fn step(cfg: &Cfg, sut: &mut Sut, m: &mut Model, pre: &Snapshot, op: Op, hasher: &TableHasher) -> StepOut {
     let mut viol: Vec<Violation> = Vec::new();
@@ -709,6 +870,19 @@ pub fn step(cfg: &Cfg, sut: &mut Sut, m: &mut Model, pre: &Snapshot, op: Op, has
         Ok(o) => o,
         Err(p) => {
             let msg = panic_msg(&p);
+            // raised by the single-thread scheduler, not by the library
+            if msg.starts_with(SOLO_DEADLOCK) || msg.starts_with(SOLO_LIVELOCK) {
+                let what = if msg.starts_with(SOLO_DEADLOCK) { "self-deadlock" } else { "livelock" };
+                let at = if msg.starts_with(SOLO_DEADLOCK) {
+                    msg.split(" at ").nth(1).and_then(|x| x.split(':').next()).unwrap_or("?").to_string()
+                } else if let Some(x) = msg.split("retries at ").nth(1) {
+                    x.split(' ').next().unwrap_or("?").to_string()
+                } else {
+                    "loop".to_string()
+                };
+                viol.push(v("C09", format!("{kdn}:{what}:{okind}:{at}"), format!("{okind} can never return: {msg}")));
+                return StepOut { obs: Obs::Unit, post: None, viol, pending: 0, dead: true };
+            }
             if !DOCUMENTED_PANICS.iter().any(|d| msg.contains(d)) {
                 let short: String = msg.chars().take(60).collect();
                 viol.push(v("C08", format!("{kdn}:panic:{okind}:{short}"), format!("{okind} panicked: {msg}")));
@@ -1248,6 +1422,46 @@ pub fn step(cfg: &Cfg, sut: &mut Sut, m: &mut Model, pre: &Snapshot, op: Op, has
                 viol.push(v("C12", format!("{kdn}:evicted-set:{okind}"), d));
             } else {
                 viol.push(v("C12", format!("{kdn}:recency-order:{okind}"), d));
+            }
+        }
+    }
+
+    // ---- C12 / C13 for a whole maintenance pass over queued ops (no maintenance after
+    // every op): the pass is predicted from the queues it found
+    if cfg.lru && !u && !cfg.autosync && matches!(op, Op::Sync) && !cfg.has_expiry() && pre.valid_after.is_none() && pre.read_ops.len() < 64 && pre.write_ops.len() < 64 {
+        let est_post: Vec<u8> = (0..=cfg.nkeys).map(|k| sut.estimate(k)).collect();
+        let (wq, wres, wec, wws, contest) = predict_pass(cfg, pre, &est_post);
+        let got_q: Vec<u64> = post.probation.nodes.iter().map(|n| n.key).collect();
+        let want_q: Vec<u64> = wq.iter().map(|n| n.0).collect();
+        let mut got_res: Vec<u64> = post.entries.iter().map(|e| e.key).collect();
+        got_res.sort();
+        if got_q != want_q || got_res != wres || post.entry_count != wec || post.weighted_size != wws {
+            let d = format!(
+                "after sync over {} queued reads and {} queued writes: the pass should leave residents {wres:?} in recency order {want_q:?} with counters ({wec},{wws}); the implementation has residents {got_res:?}, order {got_q:?}, counters ({},{}) (estimates {est_post:?}; before: order {:?}, map {:?}, writes {:?})",
+                pre.read_ops.len(),
+                pre.write_ops.len(),
+                post.entry_count,
+                post.weighted_size,
+                pre.probation.nodes.iter().map(|n| n.key).collect::<Vec<_>>(),
+                pre.entries.iter().map(|e| (e.key, e.weight, e.admitted)).collect::<Vec<_>>(),
+                pre.write_ops
+                    .iter()
+                    .map(|o| match o {
+                        OpSnap::Upsert { entry, new_weight, .. } => format!("upsert({},{})", entry.key, new_weight),
+                        OpSnap::Remove { entry } => format!("remove({})", entry.key),
+                        _ => String::new(),
+                    })
+                    .collect::<Vec<_>>()
+            );
+            if got_res != wres && contest {
+                viol.push(v("C13", format!("{kdn}:batched-pass:residents"), d.clone()));
+            }
+            if got_res != wres {
+                viol.push(v("C12", format!("{kdn}:batched-pass:residents"), d));
+            } else if got_q != want_q {
+                viol.push(v("C12", format!("{kdn}:batched-pass:recency-order"), d));
+            } else {
+                viol.push(v("C10", format!("{kdn}:batched-pass:counters"), d));
             }
         }
     }
